@@ -34,12 +34,30 @@ package standard
 //@   ensures unheld(s.attestedMu)
 //@   modifies contents(s.attested), contents(s.attested[0])
 //@
+//@ func (*Service).createAttestations
+//@   requires s != nil && duty != nil && data != nil && data.Source != nil && data.Target != nil
+//@   requires len(sigs) <= len(accounts) && len(sigs) <= len(committeeIndices) && len(sigs) <= len(validatorCommitteeIndices) && len(sigs) <= len(committeeSizes)
+//@   requires forall k int :: 0 <= k && k < len(accounts) ==> accounts[k] != nil
+//@   assumes call PublicKey (pk): pk != nil
+//@   // C04: every attestation that is produced carries exactly the i-th validator's assignment, the agreed data and the i-th signature
+//@   at call append#1: assert !iszero(sigs[i])
+//@   at call append#1: assert attestation.Data.Slot == duty.slot && attestation.Data.Index == committeeIndices[i]
+//@   at call append#1: assert attestation.Data.BeaconBlockRoot == data.BeaconBlockRoot && attestation.Data.Source.Epoch == data.Source.Epoch && attestation.Data.Source.Root == data.Source.Root && attestation.Data.Target.Epoch == data.Target.Epoch && attestation.Data.Target.Root == data.Target.Root
+//@   at call append#1: assert bitlen(attestation.AggregationBits) == committeeSizes[i] && (forall j uint64 :: bit(attestation.AggregationBits, j) <==> (j == validatorCommitteeIndices[i] && j < committeeSizes[i]))
+//@   at call append#1: assert attestation.Signature == sigs[i]
+//@   loop 1
+//@     invariant len(attestations) <= rangeindex + 1 && rangeindex < len(sigs)
+//@   ensures len(result) <= len(sigs)
+//@
 //@ func (*Service).attest
 //@   requires s != nil && duty != nil && data != nil && data.Source != nil && data.Target != nil
 //@   requires s.beaconAttestationsSigner != nil && s.attestationsSubmitter != nil && s.slotsPerEpoch > 0
 //@   requires len(committeeIndices) == len(accounts) && len(validatorCommitteeIndices) == len(accounts) && len(committeeSizes) == len(accounts)
 //@   requires data.Slot == duty.slot && data.Target.Epoch == duty.slot / s.slotsPerEpoch && data.Source.Epoch <= data.Target.Epoch
+//@   requires forall k int :: 0 <= k && k < len(accounts) ==> accounts[k] != nil
 //@   assumes call SignBeaconAttestations#1 (sigs, err): err == nil ==> len(sigs) == len(accounts)
+//@   at call createAttestations#1: assert arg2 == duty && arg3 == accounts && arg4 == committeeIndices && arg5 == validatorCommitteeIndices && arg6 == committeeSizes && arg7 == data
+//@   at call SubmitAttestations#1: assert arg1 == attestations
 //@   at call SignBeaconAttestations#1: assert arg1 == accounts && arg2 == duty.slot && arg3 == committeeIndices
 //@   at call SignBeaconAttestations#1: assert arg2 == data.Slot && arg4 == data.BeaconBlockRoot && arg5 == data.Source.Epoch && arg6 == data.Source.Root && arg7 == data.Target.Epoch && arg8 == data.Target.Root
 //@   at call SignBeaconAttestations#1: assert arg7 == arg2 / s.slotsPerEpoch && arg5 <= arg7
@@ -63,7 +81,7 @@ package standard
 //@   // C04: what is handed to signing/submission is, per validator, exactly that validator's assignment
 //@   at call attest#1: assert arg2 == duty && arg7 == attestationData && len(arg3) == len(accountValidatorIndices)
 //@   at call attest#1: assert forall k int :: 0 <= k && k < len(arg3) ==> inDuty(duty, accountValidatorIndices[k])
-//@   at call attest#1: assert forall k int :: 0 <= k && k < len(arg3) ==> arg3[k] == validatingAccounts[accountValidatorIndices[k]]
+//@   at call attest#1: assert forall k int :: 0 <= k && k < len(arg3) ==> arg3[k] == validatingAccounts[accountValidatorIndices[k]] && arg3[k] != nil
 //@   at call attest#1: assert forall k int :: 0 <= k && k < len(arg3) ==> arg4[k] == duty.committeeIndices[pos(duty, accountValidatorIndices[k])] && arg5[k] == duty.validatorCommitteeIndices[pos(duty, accountValidatorIndices[k])] && arg6[k] == duty.committeeLengths[arg4[k]]
 //@   // C01: refused data leads to no signing request
 //@   ensures calls(attest) == 0 ==> result1 != nil
